@@ -1,4 +1,5 @@
 import Clover.Generated.Facts
+import Clover.Proofs.IndexKeysWF
 import Clover.Model.DB
 import Clover.Proofs.ScanRun
 /-! # C20 — no public operation panics on well-typed input
@@ -67,5 +68,18 @@ theorem updateById_nil_refused (c id : Bytes) (d : Doc) (m : CMeta) (ctx : Ctx)
 theorem closed_handle_errors (op : Op) (σ : DBState) (φ : Faults) (h : σ.closed = true) :
     (op.run likeFn fnFam σ φ).out = .err .closed ∧ (op.run likeFn fnFam σ φ).state = σ := by
   simp [Op.run, h]
+
+open OC Keys in
+/-- **The one explicit `panic` of the index package cannot fire on a store the database wrote**
+    (`extractDocId`: `if len(key) < 36 { panic }`, reviewed site above): in a store representing a well-formed state,
+    every key under the prefix of a catalogued index is the entry of a live document — at least 36 bytes long, its last
+    36 bytes that document's id, the rest the prefix followed by the value's code — and no document key, metadata key
+    or key of another collection or index lies under that prefix. -/
+theorem extractDocId_never_panics (s : Spec.State) (σ : KVS) (hw : WF s) (hr : Rep s σ) (c : Bytes) (coll : Spec.Coll)
+    (hl : Spec.lookup c s = some coll) (f : Bytes) (hf : f ∈ coll.indexes) (k : Bytes) (v : SVal) (he : (k, v) ∈ σ)
+    (hp : isPrefix (idxPrefix c f) k = true) :
+    36 ≤ k.length ∧ ∃ d, (extractId k, d) ∈ coll.docs ∧ k = stripId k ++ extractId k := by
+  obtain ⟨h36, d, hd, _, _, _, _, _, hk⟩ := extractDocId_total s σ hw hr c coll hl f hf k v he hp
+  exact ⟨h36, d, hd, hk⟩
 
 end CV.Props.C20
